@@ -455,6 +455,19 @@ fn ids_now(w: &World) -> (Option<String>, Option<String>, Option<String>) {
     )
 }
 
+/// A parsed header is made current either through `Traceparent::push` or through the crate-level
+/// `emit_traceparent::push(traceparent, tracestate)` (what a request handler that also forwards the vendor state
+/// calls); which of the two is a function of the header text, so that both occur under every kind of nesting.
+fn push_header(w: &World, tp: Traceparent, text: &str) -> Frame<emit_traceparent::TraceparentCtxt> {
+    let combined = text.bytes().fold(0u32, |a, b| a.wrapping_mul(31).wrapping_add(b as u32)) % 2 == 0;
+    if combined {
+        w.probe("header_pushed_with_its_tracestate");
+        emit_traceparent::push(tp, emit_traceparent::Tracestate::new_owned_raw(format!("sim=h{}", text.len())))
+    } else {
+        tp.push()
+    }
+}
+
 fn tp_now() -> (Option<String>, Option<String>, bool) {
     let tp = Traceparent::current();
     (
@@ -1330,7 +1343,7 @@ fn run_incoming_sync(w: &Arc<World>, st: &mut Strand, inc: &Incoming, body: &Arc
             match Traceparent::try_from_str(text) {
             Ok(tp) => {
                 let mismatch = st.in_trace();
-                let frame = tp.push();
+                let frame = push_header(w, tp, text);
                 let saved = st.clone();
                 if mismatch {
                     // a header pushed inside another trace starts over: nothing of the outer trace is its parent
@@ -1426,7 +1439,7 @@ fn spawn_task(w: &Arc<World>, st: &Strand, body: &Arc<Vec<S>>, header: Option<St
                     })
                     .expect("formatted header parses");
                     push_header_model(&w2, &mut child, &inc, &tp);
-                    tp.push()
+                    push_header(&w2, tp, match &inc { Incoming::Header { text } => text.as_str(), _ => "" })
                         .in_future(async {
                             run_async(&w2, &mut child, &body).await;
                         })
@@ -1491,7 +1504,7 @@ fn run_async<'a>(w: &'a Arc<World>, st: &'a mut Strand, nodes: &'a Arc<Vec<S>>) 
                     Ok(tp) => {
                         w.probe("incoming_ids_pushed");
                         let mismatch = st.in_trace();
-                        let frame = tp.push();
+                        let frame = push_header(w, tp, text);
                         let saved = st.clone();
                         if mismatch {
                             w.probe("header_pushed_inside_another_trace");
